@@ -1,7 +1,7 @@
 (* C10 - instantiation of the reflective explorer for Model/Teardown.v, the statements decided by
    computation on small instances, and the witness schedules of the refuted full statements *)
 From Coq Require Import NArith String List Bool Arith Lia.
-From UPF Require Import Base.LTS Model.Teardown.
+From UPF Require Import Base.LTS Model.Teardown Proofs.TeardownInv.
 Import ListNotations.
 Open Scope list_scope.
 
@@ -84,13 +84,14 @@ Qed.
 Lemma labels_cover s l s' : step s l = Some s' -> In l (labels s).
 Proof.
   unfold step, labels. destruct (dead s); [discriminate|]. intros H.
-  destruct l as [k|alt| |i r alt].
+  destruct l as [k|alt| | |i r alt].
   - apply in_or_app. left. apply List.in_map. apply in_seq.
     destruct (nth_error (s_env s) k) eqn:E; [|discriminate].
     assert (k < List.length (s_env s)) by (apply nth_error_Some; congruence). lia.
   - apply in_or_app. right. apply in_or_app. left.
     destruct alt as [|[|[|alt]]]; cbn in *; try discriminate; auto.
-  - apply in_or_app. right. apply in_or_app. left. cbn. auto.
+  - apply in_or_app. right. apply in_or_app. left. cbn. tauto.
+  - apply in_or_app. right. apply in_or_app. left. cbn. tauto.
   - apply in_or_app. right. apply in_or_app. right.
     destruct (negb (is_assoc_role r) || Nat.leb 3 alt) eqn:Eg; [discriminate|].
     apply orb_false_elim in Eg. destruct Eg as [Er Ealt]. apply negb_false_iff in Er.
@@ -124,36 +125,48 @@ Definition is_done (a : assoc) : bool := match a_once a with ODone => true | _ =
 
 Definition hb_of (cfg : list acfg) (i : nat) : bool :=
   match nth_error cfg i with Some c => c_hb c | None => false end.
+Definition has_stop (ev : list env) : bool :=
+  existsb (fun e => match e with EStop | ECancel => true | _ => false end) ev.
 (* association i is given a reason to end *)
 Definition triggered (cfg : list acfg) (ev : list env) (i : nat) : bool :=
   existsb (fun e => match e with
                     | EDeliver j DRelease | ETimeout j => Nat.eqb j i
                     | EHbFail j => Nat.eqb j i && hb_of cfg i
-                    | EStop | ECancel => true
                     | _ => false
                     end) ev
   || match nth_error cfg i with
      | Some c => match c_first c with Some DRelease => true | _ => false end
      | None => false
      end.
-(* an association that was established (not a first-datagram one) and has ended is no longer in pConns *)
+(* an association that has ended is no longer in pConns (whatever its first datagram was) *)
 Definition forgotten_ok (cfg : list acfg) (s : state) : bool :=
+  forallb (fun i => match nth_error (s_asc s) i with
+                    | Some a => negb (is_done a) || negb (in_map s i)
+                    | None => true
+                    end) (seq 0 (List.length cfg)).
+(* every connection the node created has removed all its sessions and is gone from pConns *)
+Definition all_clean (cfg : list acfg) (s : state) : bool :=
   forallb (fun i => match nth_error cfg i, nth_error (s_asc s) i with
                     | Some c, Some a =>
-                      match c_first c with
-                      | Some _ => true
-                      | None => negb (is_done a) || negb (in_map s i)
-                      end
+                      negb (in_map s i)
+                      && (negb (crt a) || (list_eqb N.eqb (a_del a) (c_sess c) && is_nil (a_store a)))
                     | _, _ => true
                     end) (seq 0 (List.length cfg)).
 
+(* without Stop: no panic; a state in which no thread can move is healthy and has forgotten the ended
+   associations; when nothing at all can move every triggered association has ended.
+   with Stop: no panic; when nothing can move, Done() has returned and main has exited (no deadlock: Stop always
+   completes), and at that point - as at every state in which node.done is closed - everything is clean *)
 Definition good (cfg : list acfg) (ev : list env) (s : state) : bool :=
   negb (panicked s)
-  && (negb (quiet s) || (quiescent_ok s && forgotten_ok cfg s))
-  && (negb (terminal s)
-      || forallb (fun i => negb (triggered cfg ev i)
-                           || match nth_error (s_asc s) i with Some a => is_done a | None => false end)
-                 (seq 0 (List.length cfg))).
+  && (if has_stop ev
+      then (negb (terminal s) || n_main (s_node s))
+           && (negb (cclosed (n_done (s_node s))) || all_clean cfg s)
+      else (negb (quiet s) || (quiescent_ok s && forgotten_ok cfg s))
+           && (negb (terminal s)
+               || forallb (fun i => negb (triggered cfg ev i)
+                                    || match nth_error (s_asc s) i with Some a => is_done a | None => false end)
+                          (seq 0 (List.length cfg)))).
 
 Lemma safe_sound bad fuel s0 : is_safe (explore bad fuel s0) = true ->
   forall s, reach s0 s -> bad s = false.
@@ -172,56 +185,12 @@ Proof.
   apply (safe_sound (fun s => negb (good cfg ev s)) fuel (init cfg ev) H s Hr).
 Qed.
 
+(* fuel of the explorer (todo-list pops); generous *)
+Definition fuel_1m : nat := 1000000.
+Definition fuel_2m : nat := 2000000.
+
 Definition rel (i : nat) : env := EDeliver i DRelease.
 
 (* two established associations, each released and each silent past the read timeout, all interleavings *)
 Definition cfg4 : list acfg := [ACfg [1%N] false None; ACfg [2%N] false None].
 Definition ev4 : list env := [rel 0; ETimeout 0; rel 1; ETimeout 1].
-
-(* ================================================================== witnesses (refutations of the full statements) *)
-Definition one_live (k : list N) : list acfg := [ACfg k false None].
-
-(* F21a: Stop with one live association: the node closes pConnDone before the connection reports *)
-Definition w_send_closed : list tid :=
-  [TEnv 0; TStop;                                             (* the stop signal; node.cancel() *)
-   TNode 1; TNode 0; TNode 0; TNode 0; TNode 0;               (* ctx.Done; Close; drain; len; close(pConnDone) *)
-   TA 0 RSel 1; TA 0 RSel 0;                                  (* conn: ctx.Done; Shutdown -> Once *)
-   TA 0 RSel 0; TA 0 RSel 0; TA 0 RSel 0; TA 0 RSel 0; TA 0 RSel 0;  (* close(shutdown); hb; snapshot; delete; remove *)
-   TA 0 RSel 0].                                              (* pConn.done <- rAddr *)
-Lemma stop_send_on_closed :
-  s_panic (run (init (one_live [7%N]) [EStop]) w_send_closed) = Some "send on closed channel"%string.
-Proof. vm_compute. reflexivity. Qed.
-
-(* F21b: the completion arrives between the non-blocking drain and the len test: range never ends *)
-Definition w_range_hang : list tid :=
-  [TEnv 0; TStop; TNode 1; TNode 0; TNode 0;                  (* ... drain finds nothing *)
-   TA 0 RSel 1; TA 0 RSel 0; TA 0 RSel 0; TA 0 RSel 0; TA 0 RSel 0; TA 0 RSel 0;   (* conn reports *)
-   TNode 0; TNode 0;                                          (* len > 0; range receives the one item *)
-   TA 0 RSel 0; TA 0 RSel 0; TA 0 RSel 0; TA 0 RRd 0; TA 0 RRd 0].   (* the connection finishes *)
-Lemma stop_range_hang :
-  let s := run (init (one_live []) [EStop]) w_range_hang in
-  terminal s = true /\ dead s = false /\ t_st (n_stop (s_node s)) = TRunning /\ t_pc (n_thr (s_node s)) = 4
-  /\ cclosed (n_done (s_node s)) = false.
-Proof. vm_compute. repeat split. Qed.
-
-(* F21c: Done() returns and main exits while the connection has not removed its sessions *)
-Definition w_exit_early : list tid :=
-  [TEnv 0; TStop; TNode 1; TNode 0; TNode 0; TNode 0; TNode 0; TNode 0; TNode 0; TNode 0; TStop; TStop].
-Lemma stop_exit_before_cleanup :
-  let s := run (init (one_live [7%N]) [EStop]) w_exit_early in
-  terminal s = true /\ panicked s = false /\ n_main (s_node s) = true /\ deleted s 0 7%N = 0 /\ in_map s 0 = true.
-Proof. vm_compute. repeat split. Qed.
-
-(* F41: the first datagram of a new peer is a release *)
-Definition w_first_release : list tid :=
-  [TA 0 RFst 0; TA 0 RFst 0;                                   (* accept; HandlePFCPMsg -> Shutdown *)
-   TA 0 RFst 0; TA 0 RFst 0; TA 0 RFst 0; TA 0 RFst 0; TA 0 RFst 0; TA 0 RFst 0;  (* doShutdown ... done <- rAddr *)
-   TNode 0;                                                    (* node: pConns.Delete(rAddr) - nothing stored yet *)
-   TA 0 RFst 0; TA 0 RFst 0;                                   (* Close; Once completes *)
-   TA 0 RFst 0; TA 0 RFst 0; TA 0 RFst 0; TA 0 RFst 0;         (* pConns.Store; go Serve; back to the loop *)
-   TA 0 RRd 0; TA 0 RRd 0; TA 0 RSel 2; TA 0 RSel 0].          (* reader: ErrClosed; select loop: <-shutdown *)
-Lemma first_release_stale :
-  let s := run (init [ACfg [7%N] false (Some DRelease)] []) w_first_release in
-  terminal s = true /\ panicked s = false /\ quiescent_ok s = true /\ deleted s 0 7%N = 1
-  /\ in_map s 0 = true /\ fresh_setup_processed s 0 = false.
-Proof. vm_compute. repeat split. Qed.
